@@ -213,4 +213,27 @@ def plantedInfo (ls : List InfoLine) : Extracted :=
     cpr := dedup (ls.filterMap (·.notice))
     con := dedup (ls.filterMap (·.conValue)) }
 
+/-! ### ignore blocks -/
+
+/-- a text with ignore blocks: visible `a0`, then any number of closed blocks `REUSE-IgnoreStart b REUSE-IgnoreEnd`
+    each followed by visible text `a`, and possibly a last block that is never closed -/
+def blocksText (a0 : Text) : List (Text × Text) → Option Text → Text
+  | [], none => a0
+  | [], some b => a0 ++ Generated.ignoreStart ++ b
+  | (b, a) :: rest, o => a0 ++ Generated.ignoreStart ++ b ++ Generated.ignoreEnd ++ blocksText a rest o
+
+/-- what is outside the blocks, glued together -/
+def visibleText (a0 : Text) : List (Text × Text) → Text
+  | [] => a0
+  | (_, a) :: rest => a0 ++ visibleText a rest
+
+/-- the decomposition is the one the reader makes: no start marker in a visible part, no end marker in a hidden part
+    (which is otherwise arbitrary: tag lines, notices, further start markers) -/
+def chunksOK (a0 : Text) (bs : List (Text × Text)) (o : Option Text) : Bool :=
+  (findSub Generated.ignoreStart a0).isNone &&
+  bs.all (fun p => (findSub Generated.ignoreEnd p.1).isNone && (findSub Generated.ignoreStart p.2).isNone) &&
+  (match o with
+   | none => true
+   | some b => (findSub Generated.ignoreEnd b).isNone)
+
 end Spec
